@@ -54,9 +54,9 @@ def _families(tier):
         for start in range(0, 1 << m, CHUNK):
             fam.append(("enum", n, start))
     fam += [("multi_ex", i) for i in range(16)]
-    fam += [("multi_sample", i) for i in range(40 if tier == "quick" else 400)]
-    fam += [("random", i) for i in range(60 if tier == "quick" else 900)]
-    fam += [("history", i) for i in range(150 if tier == "quick" else 3000)]
+    fam += [("multi_sample", i) for i in range(40 if tier == "quick" else 1200)]
+    fam += [("random", i) for i in range(60 if tier == "quick" else 3000)]
+    fam += [("history", i) for i in range(150 if tier == "quick" else 12000)]
     fam += [("chr1", 0)]
     return fam
 
